@@ -37,3 +37,29 @@ package client
 //@   ensures[no-conn-on-error] result1 != nil ==> result0 == nil
 //@   loop 1 invariant[reconnected] gReconnects >= old(gReconnects) && (gReconnects > old(gReconnects) ==> gConnectErr == nil)
 //@   loop 1 invariant[session] l.sess != nil
+
+// ---- the forwarder's byte pipes (C07) ---------------------------------------------------
+//@ nonnil Forwarder.ctx Forwarder.logger
+//@ contract (*Forwarder).forward$1
+//@   serves C07
+//@   requires[conns] f != nil && downstream != nil && upstream != nil
+//@   requires[fresh-step] !gCopied && gCopyCount == 0
+//@   ensures[one-direction] gCopyCount == 1 && gCopyDst == asIface(downstream, "io.Writer") && gCopySrc == asIface(upstream, "io.Reader")
+//@   ensures[close-propagates] gPipeClosed == downstream && gPipeClosedAfterCopy
+//@ contract (*Forwarder).forward$2
+//@   serves C07
+//@   requires[conns] f != nil && upstream != nil && downstream != nil
+//@   requires[fresh-step] !gCopied && gCopyCount == 0
+//@   ensures[one-direction] gCopyCount == 1 && gCopyDst == asIface(upstream, "io.Writer") && gCopySrc == asIface(downstream, "io.Reader")
+//@   ensures[close-propagates] gPipeClosed == upstream && gPipeClosedAfterCopy
+//@ contract (*Forwarder).forward
+//@   serves C07
+//@   requires[conns] downstream != nil
+//@   requires[fresh-step] !spawned("(*Forwarder).forward$1") && !spawned("(*Forwarder).forward$2")
+//@   ensures[both-or-neither] spawned("(*Forwarder).forward$1") == spawned("(*Forwarder).forward$2")
+
+//@ extern net.(*Dialer).DialContext
+//@   ensures[conn-or-error] result1 == nil ==> result0 != nil
+//@ contract (*Dialer).Dial
+//@   trusted opens the websocket to the server's TCP proxy route and wraps it in pkg/websocket.Conn (retry loop with backoff: not under contract)
+//@   ensures[conn-or-error] result1 == nil ==> result0 != nil
